@@ -12,7 +12,8 @@
  *   c04_faults faults <op> <entry> <file> <kfrom> <kto> <stride> [nframes]
  *        op    = load | test | start | restart | smixload | smixstart
  *        entry = path | mem | file | cb        (start/restart: how the module is loaded)
- *        k runs over kfrom, kfrom+stride, ... <= min(kto, N-1); kto=-1: all; kfrom=-1: baseline only
+ *        k runs over kfrom, kfrom+stride, ... <= min(kto, N-1); kto=-1: all; kfrom=-1: baseline only;
+ *        stride=-T: choose the stride so that about T indices are tried
  *   c04_faults trunc <entry> <file> <len> [<len>...]      load/test the prefix of that length
  *   c04_faults readfault <file> <jfrom> <jto> <stride> <mode>   callbacks: the j-th read call and all later ones
  *                                                            return short (mode 0) / nothing (mode 1)
@@ -1201,10 +1202,16 @@ static int cmd_faults(int argc, char **argv)
 		g_nframes = atoi(argv[8]);
 	if (argc > 9)
 		g_wav = argv[9];
-	if (stride < 1)
-		stride = 1;
 	printf("begin op=%s entry=%s file=%s\n", argv[2], argv[3], argv[4]);
 	run_case(op, &src, -1, 1);
+	if (stride < 1) {
+		/* -T: about T fault indices spread over the N allocator calls of the operation */
+		int target = stride < 0 ? -stride : 1;
+		stride = (base.n + target - 1) / target;
+		if (stride < 1)
+			stride = 1;
+	}
+	printf("stride s=%d n=%d\n", stride, base.n);
 	if (kfrom < 0) {
 		free(src.data);
 		return 0;
